@@ -26,15 +26,23 @@ def run(ctx):
             gts = calls(b, r"SequenceMatcher::get_timestamp$", 2)
             inst.sites = [sp(b, p.bb), sp(b, wc.bb)] + [sp(b, g.bb) for g in gts]
 
+            # parameters: (&self, group, event_type_a, event_type_b, zones_by_event_type) -> locals 3 and 4 are the two sides
+            def side_of(op):
+                d = deep_locals(b, op, wide=True) | wide_all(b, op)
+                s_ = set()
+                if 3 in d:
+                    s_.add("a")
+                if 4 in d:
+                    s_.add("b")
+                return s_
+
             def side(L):
                 for l in L:
                     if l[0] == "call" and "get_timestamp" in l[1]:
                         c = b.call_at(l[2])
-                        nm = {b.local_name(x) for x in b._origin_locals(c.args[2], depth=10)} | {b.local_name(x) for x in b._origin_locals(c.args[1], depth=10)}
-                        if "row_a" in nm or "zones_a" in nm:
-                            return "a"
-                        if "row_b" in nm or "zones_b" in nm:
-                            return "b"
+                        s_ = side_of(c.args[2]) & side_of(c.args[1])
+                        if len(s_) == 1:
+                            return list(s_)[0]
                 return None
             flip = {"Ge": "Le", "Le": "Ge", "Gt": "Lt", "Lt": "Gt"}
             neg = {"Ge": "Lt", "Lt": "Ge", "Gt": "Le", "Le": "Gt"}
@@ -59,13 +67,7 @@ def run(ctx):
                 bad.append(("where-guard", "%s pushes a pair that did not pass matches_where_clause" % name, None))
             # WHERE gets two consistent (event type, zones, row) triples, one per side
             def sides(op):
-                out = set()
-                for x in b._origin_locals(op, depth=10):
-                    n = b.local_name(x) or ""
-                    m = re.search(r"(?:^|_)(a|b)(?:_|$)", n)
-                    if m:
-                        out.add(m.group(1))
-                return out
+                return side_of(op)
             tri = [[sides(wc.args[i]) for i in (1, 2, 3)], [sides(wc.args[i]) for i in (4, 5, 6)]]
             ok = all(len(x) == 1 for t in tri for x in t) and all(t[0] == t[1] == t[2] for t in tri) and tri[0][0] != tri[1][0]
             inst.sites.append("WHERE triples: %s" % tri)
